@@ -8,7 +8,7 @@
 (* printed ("VERDICT") and kept in the state; AllAccepted is checked as an *)
 (* invariant (with -continue every rejected event is reported).            *)
 (***************************************************************************)
-EXTENDS Contracts, Oracles, Json, IOUtils
+EXTENDS Contracts, Oracles, Codegen, Json, IOUtils
 
 Trace == JsonDeserialize(IOEnv.TRACE_FILE)
 
@@ -34,7 +34,9 @@ Init == /\ e \in First..Len(Trace)
 
 Judge == /\ st = "todo"
          /\ st' = "done"
-         /\ out' = Contract(Trace[e], WithTables(ModelOf(Trace[e], m), Trace[e].tabhint))
+         /\ out' = (IF Trace[e].op = "generate_code"
+                    THEN CodegenContract(Trace[e], WithTables(ModelOf(Trace[e], m), Trace[e].tabhint))
+                    ELSE Contract(Trace[e], WithTables(ModelOf(Trace[e], m), Trace[e].tabhint)))
          /\ UNCHANGED <<e, m>>
          /\ PrintT(<<"VERDICT", Trace[e].tid, m, out'>>)
 
